@@ -92,20 +92,24 @@ package implements
 // the type's methods are read from go/types' method set of *T (which contains the methods of T and *T, including the ones
 // promoted through embedding): one model per selection, in order, with its name and whether its receiver is a pointer
 //@ macro func msOf(named *types.Named) *types.MethodSet = types.NewMethodSet(types.NewPointer(named))
-// Go's method-set rule for a value of type T: the method is found in go/types' method set of T itself (methods with value
-// receivers and methods promoted through embedded pointers)
+// Go's method-set rules: a method can be called on a value of type T iff go/types' method set of T has it (methods with value
+// receivers and methods promoted through embedded pointers), through a pointer iff the method set of *T has it. For every
+// type but a defined interface type the method set of *T contains that of T, so it lists all methods; a defined interface
+// type has its methods in its own method set only.
 //@ macro func inValueSet(named *types.Named, m types.Object) bool = types.NewMethodSet(named).Lookup(m.Pkg(), m.Name()) != nil
+//@ macro func inPtrSet(named *types.Named, m types.Object) bool = msOf(named).Lookup(m.Pkg(), m.Name()) != nil
+//@ macro func msAll(named *types.Named) *types.MethodSet = types.IsInterface(named) ? types.NewMethodSet(named) : msOf(named)
 //@ func extractMethodsFromNamedType
 //@   props C05 C10
 //@   assigns nothing
-//@   ensures len(result) == msOf(named).Len()
-//@   ensures forall a int :: 0 <= a && a < len(result) ==> result[a].Name == msOf(named).At(a).Obj().Name() && result[a].id == msOf(named).At(a).Obj().Id() && result[a].ReceiverIsPointer == !inValueSet(named, msOf(named).At(a).Obj())
-//@   ensures forall a int :: 0 <= a && a < len(result) ==> tupleModelM(result[a].Inputs, sigOfFunc(cast(msOf(named).At(a).Obj(), *types.Func)).Params(), sigOfFunc(cast(msOf(named).At(a).Obj(), *types.Func)).Variadic()) && tupleModelM(result[a].Outputs, sigOfFunc(cast(msOf(named).At(a).Obj(), *types.Func)).Results(), false)
+//@   ensures len(result) == msAll(named).Len()
+//@   ensures forall a int :: 0 <= a && a < len(result) ==> result[a].Name == msAll(named).At(a).Obj().Name() && result[a].id == msAll(named).At(a).Obj().Id() && result[a].ReceiverIsPointer == !inValueSet(named, msAll(named).At(a).Obj()) && result[a].valueOnly == !inPtrSet(named, msAll(named).At(a).Obj())
+//@   ensures forall a int :: 0 <= a && a < len(result) ==> tupleModelM(result[a].Inputs, sigOfFunc(cast(msAll(named).At(a).Obj(), *types.Func)).Params(), sigOfFunc(cast(msAll(named).At(a).Obj(), *types.Func)).Variadic()) && tupleModelM(result[a].Outputs, sigOfFunc(cast(msAll(named).At(a).Obj(), *types.Func)).Results(), false)
 //@   ensures forall a int, b int :: 0 <= a && a < b && b < len(result) ==> mKey(result[a].Name, result[a].id) != mKey(result[b].Name, result[b].id)
 //@   loop 1 invariant 0 <= $v && $v <= methodSet.Len() && methodSet != nil && len(methods) == $v
-//@   loop 1 invariant methodSet == msOf(named) && valueSet == types.NewMethodSet(named)
+//@   loop 1 invariant methodSet == msAll(named) && valueSet == types.NewMethodSet(named) && valueOnly == types.IsInterface(named)
 //@   loop 1 invariant forall a int :: 0 <= a && a < len(methods) ==> tupleModelM(methods[a].Inputs, sigOfFunc(cast(methodSet.At(a).Obj(), *types.Func)).Params(), sigOfFunc(cast(methodSet.At(a).Obj(), *types.Func)).Variadic()) && tupleModelM(methods[a].Outputs, sigOfFunc(cast(methodSet.At(a).Obj(), *types.Func)).Results(), false)
-//@   loop 1 invariant forall a int :: 0 <= a && a < len(methods) ==> methods[a].Name == methodSet.At(a).Obj().Name() && methods[a].id == methodSet.At(a).Obj().Id() && methods[a].ReceiverIsPointer == !inValueSet(named, methodSet.At(a).Obj())
+//@   loop 1 invariant forall a int :: 0 <= a && a < len(methods) ==> methods[a].Name == methodSet.At(a).Obj().Name() && methods[a].id == methodSet.At(a).Obj().Id() && methods[a].ReceiverIsPointer == !inValueSet(named, methodSet.At(a).Obj()) && methods[a].valueOnly == !inPtrSet(named, methodSet.At(a).Obj())
 //@ func isPointerReceiver
 //@   props C10
 //@   nilable t
@@ -144,8 +148,8 @@ package implements
 //@   loop 1 invariant forall j int :: 0 <= j && j < len(result) ==> (exists k int :: 0 <= k && k < $i && annotations[k].PackageNotFound && result[j].Pos == annotations[k].OnTypePos && result[j].TypeName == annotations[k].OnType && result[j].PackageName == annotations[k].PackageName)
 //@   loop 1 invariant forall k int :: 0 <= k && k < $i && annotations[k].PackageNotFound ==> (exists j int :: 0 <= j && j < len(result) && result[j].Pos == annotations[k].OnTypePos && result[j].TypeName == annotations[k].OnType && result[j].PackageName == annotations[k].PackageName)
 
-// the type's methods that count: all for &I, only value-receiver methods for I; names in a method set are unique
-//@ macro func usable(m TypeMethod, requirePointer bool) bool = requirePointer || !m.ReceiverIsPointer
+// the type's methods that count: those of the method set of *T for &I, those of the method set of T for I; Ids in a method set are unique
+//@ macro func usable(m TypeMethod, requirePointer bool) bool = requirePointer ? !m.valueOnly : !m.ReceiverIsPointer
 // a method is identified the way Go identifies it: go/types' Id (the name, qualified by the package path when it is not
 // exported); hand-built models (id == "") by the name
 //@ macro func mKey(name string, id string) string = id != "" ? id : name
